@@ -164,6 +164,12 @@ func (h *harness) judgeAsk(c *engine.Case) verdict {
 	if c.NoIdle {
 		return h.judgeNoIdle(c)
 	}
+	if hasShared(c) {
+		return h.judgeShared(c)
+	}
+	if c.ExactMasks || c.PanicAt > 0 {
+		return h.judgeAskExt(c)
+	}
 	reply := ""
 	if h.model != nil {
 		r, err := h.model.Ask(c.ModelLine())
@@ -465,11 +471,26 @@ func main() {
 
 	if run.Replay != "" {
 		var rp struct {
-			Case json.RawMessage `json:"case"`
+			Level string          `json:"level"`
+			Case  json.RawMessage `json:"case"`
 		}
 		if err := hx.LoadReplayCase(run.Replay, &rp); err != nil {
 			fmt.Fprintln(os.Stderr, err)
 			os.Exit(2)
+		}
+		if rp.Level == "tasks" {
+			var tc taskCase
+			if err := json.Unmarshal(rp.Case, &tc); err != nil {
+				fmt.Fprintln(os.Stderr, err)
+				os.Exit(2)
+			}
+			fail, log, body := runTaskCase(&tc)
+			fmt.Printf("document:       %s\nplan:           %v\nlog:            %v\nresponse:       %s\nverdict:        %s\n", tc.Doc, tc.Plan, log, body, fail)
+			if fail != "" {
+				run.Violate("property", "apifu tasks: "+fail, "", false, map[string]any{"level": "tasks", "case": &tc})
+			}
+			run.Finish(h.model)
+			return
 		}
 		var c engine.Case
 		if err := json.Unmarshal(rp.Case, &c); err != nil {
@@ -515,6 +536,9 @@ func main() {
 	}
 	h.exhaustive()
 	h.noIdle()
+	h.extended()
+	h.shared()
+	h.apifuTasks()
 	cs := engine.WideCases(true, run.Scale(100, 600))
 	run.CountN("wide selection sets (5–12 keys) × presentations", len(cs))
 	h.batch(cs, "wide")
